@@ -306,11 +306,16 @@ def run_check(cid: str, tier: str, seed: int, runs=None, wall=None, workers=None
     next_idx = 0
     pending = set()
     stop = False
-    hard_deadline = t0 + wall_s
+    # the exploration budget starts once the framework is up (imports on a loaded machine can take
+    # half a minute); a first wave of batches is always dispatched, so slowness alone can never turn
+    # into "nothing explored"
+    hard_deadline = time.monotonic() + wall_s
+    first_wave = workers
     try:
         while (next_idx < n_runs and not stop) or pending:
             while (len(pending) < workers * 2 and next_idx < n_runs and not stop
-                   and time.monotonic() < hard_deadline):
+                   and (time.monotonic() < hard_deadline or first_wave > 0)):
+                first_wave -= 1
                 idxs = list(range(next_idx, min(n_runs, next_idx + chunk)))
                 next_idx = idxs[-1] + 1
                 pending.add(pool.submit(_worker_batch, cid, seed, tier, idxs, run_cap_s,
